@@ -41,6 +41,12 @@ impl Method for FixedMethod {
             return self.current_suggestion(config);
         }
 
+        // The value of the key was dropped, so nothing is being composed.
+        if !self.ongoing_input_session() {
+            self.typed.clear();
+            return Suggestion::empty();
+        }
+
         if config.get_fixed_suggestion() {
             if let Some(character) = keycode_to_char(key) {
                 self.typed.push(character);
